@@ -77,6 +77,7 @@ let table : (string * (sexp -> sexp)) list = [
   ("C18", run_C18);
   ("C17", run_C17);
   ("C19", run_C19);
+  ("C11", run_C11);
 ]
 
 let () =
